@@ -25,6 +25,7 @@ func init() {
 		Title:       "Boolean path operations compute the set algebra of the filled regions",
 		Explanation: "Decides the finite tables of the boolean operations for every input that reaches them: each public wrapper passes the op constant of its name, its own operands and NonZero; SweepPoint.InResult's per-op membership expressions equal the property's truth table over (subject fills, clipping fills) on each side of an edge and an edge is kept iff filling changes; the pathOp switch is exhaustive; bentleyOttmann's four early-outs (Q empty, P empty, disjoint sub-path of P, of Q) keep an operand exactly for the ops whose truth table keeps it. NOT decided: the sweep itself, snap rounding, overlap merging, contour tracing, termination, area laws.",
 		Run: func(c *core.Ctx, r *core.Report) {
+			E11StickyFlag(c, r)
 			E9ClipClosed(c, r)
 			E9AbsorbedLink(c, r)
 			E9AbsorbConserves(c, r)
@@ -156,6 +157,7 @@ func init() {
 		Run: func(c *core.Ctx, r *core.Report) {
 			E4AlphaDivision(c, r)
 			E5JPEGColorSpace(c, r)
+			E5TextStringEncoding(c, r)
 			E4AdditiveLoop(c, r)
 			E5Position(c, r)
 			E5ObjOffsets(c, r)
@@ -184,6 +186,7 @@ func init() {
 			E11ConstIndexInLoop(c, r)
 			E6DashPeriod(c, r)
 			E6JoinerSupport(c, r)
+			E1VectorRenderPath(c, r)
 			E6ColorModelCompare(c, r)
 			E6OutlineNonzero(c, r)
 			E5StitchingArity(c, r)
@@ -208,6 +211,7 @@ func init() {
 		Explanation: "Decides, for every path and argument: (1) every exported method of *Path/Paths other than the documented in-place mutators/sinks (each re-justified by its doc phrase) writes no memory reachable from its receiver or arguments — interprocedural effect analysis on SSA; the copy-on-write latch of replace is verified structurally; (2) the command encoding discipline: cmdLen vs the format, payload offsets inside the decoded record, every record built/retagged with the command at both ends; Split hands out capacity-limited sub-slices; (3) no in-place transform accumulates over loop iterations, no loop state variable is stuck at its initial constant. (4) since batch 12: every explicit panic reachable from Settle/And/Or/Xor/Not/DivideBy is a reviewed precondition or data-structure guard, or a known finding with a failing input; the sweep's work-list loop is reported for having no explicit bound (known finding: an operand pair on which Or does not return). NOT decided: 'no zero-length segments', the geometry the builders trace, implicit run-time panics other than those named, termination of anything but that loop.",
 		Assumptions: []string{"standard-library functions not in the mutator table are pure (listed in coverage.external_assumed)", "results of calls through function-typed parameters are fresh objects", "one reviewed call edge: Dash -> Join (reason in the checker's exception table)"},
 		Run: func(c *core.Ctx, r *core.Report) {
+			E11ArcSpanMagnitude(c, r)
 			E1PathMethods(c, r)
 			E2CmdLenTable(c, r)
 			E2RecordLayout(c, r)
@@ -327,6 +331,7 @@ func init() {
 			E11Subsetter(c, r)
 			E5SubsetOnce(c, r)
 			E5WidthRuns(c, r)
+			E5DefaultWidth(c, r)
 			E11RunCoversCodes(c, r)
 			E11DerivedScale(c, r)
 			E5TextMatrixComplete(c, r)
@@ -341,6 +346,7 @@ func init() {
 			E11SVGVocabulary(c, r)
 			E11WordListMatch(c, r)
 			E11SelectorHash(c, r)
+			E11SVGMiterLimitCarried(c, r)
 			E11SVGCascade(c, r)
 			E11SVGTransformSeparator(c, r)
 			E11SVGColorGrammar(c, r)
@@ -404,6 +410,7 @@ func init() {
 		Explanation: "Decides, for every schedule and history: (1) no package-level variable of the module is stored outside package initialisation except inside a sync.Once/OnceFunc body, with the mutex of the same variable held (dominating Lock, no intervening Unlock), or through sync/atomic, and mutex-protected variables are also read under the mutex; (2) every function that reads the once-initialised pool variables is reachable from the concurrent API set only through a function whose once-call dominates all its other calls; (3) every object taken from a sync.Pool is completely overwritten or has every field stored before its first other use (no state carried between calls); (4) every range over a map in the module is order-independent by construction (collect-then-sort, commutative reductions, per-entry updates, total-order arg-best) or is a reviewed/known entry. NOT decided: races inside third-party packages, use-after-Put of pooled objects, writes through shared *Font objects (see E1 when wired), the naming of unnamed fonts by a global counter (inherent to the API).",
 		Assumptions: []string{"sync, sync/atomic behave as documented", "the API set is the one listed in DESIGN.md §3 C20"},
 		Run: func(c *core.Ctx, r *core.Report) {
+			E7MemoKey(c, r)
 			E7Globals(c, r)
 			E7GlobalEscape(c, r)
 			E7OnceBeforeUse(c, r, c20APIRoots(c))
